@@ -208,11 +208,9 @@ pure_method_harness!(c10_char_classes, 4, |a, d| {
 });
 
 /// skip_ws_to_eol: same result, same count, same remaining input; and the count is a CHARACTER count.
-#[kani::proof]
-#[kani::unwind(10)]
-pub fn c10_skip_ws_to_eol() {
+fn skip_ws_to_eol_diff(nchars: usize) {
     let mut buf = [0u8; MAXB];
-    let n = sym_utf8(&mut buf, 3);
+    let n = sym_utf8(&mut buf, nchars);
     let s = as_str(&buf, n);
     let mut a = StrInput::new(s);
     let mut d = Defaults(StrInput::new(s));
@@ -228,6 +226,17 @@ pub fn c10_skip_ws_to_eol() {
     }
     kani::cover!(ra.is_ok() && ca >= 2, "must: two characters skipped");
     kani::cover!(ra.is_err(), "must: comment without separation rejected");
+}
+
+#[kani::proof]
+#[kani::unwind(6)]
+pub fn c10_skip_ws_to_eol() {
+    skip_ws_to_eol_diff(2);
+}
+#[kani::proof]
+#[kani::unwind(8)]
+pub fn c10_skip_ws_to_eol_3() {
+    skip_ws_to_eol_diff(3);
 }
 
 #[kani::proof]
